@@ -40,6 +40,31 @@ func (r *verifC05Requester) RequestTrieNodes(_ uint32, hashes [][]byte, _ string
 func (r *verifC05Requester) RequestInterval() time.Duration { return time.Millisecond }
 func (r *verifC05Requester) IsInterfaceNil() bool           { return r == nil }
 
+// verifC05FaultyDB is the destination storage as the syncer sees it: a transient storage error makes exactly one
+// Put (the failAt-th, counted from 0) fail without storing anything; every other operation goes to the map DB.
+// (Real destinations are storageUnit/leveldb persisters behind trieStorageManager.Database(); their Put returns
+// errors, e.g. on a full disk or a closing DB: update/sync and epochStart/bootstrap pass that DB to CreateTrieSyncer.)
+type verifC05FaultyDB struct {
+	*verifTBMapDB
+	failAt    int // -1: never
+	puts      int
+	failedKey []byte
+}
+
+var verifC05ErrPut = errors.New("verifC05: transient storage error on Put")
+
+func (d *verifC05FaultyDB) Put(key, val []byte) error {
+	n := d.puts
+	d.puts++
+	if n == d.failAt {
+		d.failedKey = append([]byte{}, key...)
+		return verifC05ErrPut
+	}
+	return d.verifTBMapDB.Put(key, val)
+}
+
+func (d *verifC05FaultyDB) IsInterfaceNil() bool { return d == nil }
+
 type verifC05TrieInfo struct {
 	root       []byte
 	reachable  []string          // node hashes reachable from root, sorted
@@ -271,6 +296,17 @@ func TestVerifC05_Sync(t *testing.T) {
 				c.Class("destination-prepopulated")
 			}
 
+			// fault class: one transient Put failure in the destination storage
+			dst := &verifC05FaultyDB{verifTBMapDB: dstDB, failAt: -1}
+			if rapid.IntRange(0, 2).Draw(rt, "putFault") == 0 {
+				// mostly early Puts (the root and the upper levels are written first), sometimes any
+				if rapid.Bool().Draw(rt, "putFaultEarly") {
+					dst.failAt = rapid.IntRange(0, 3).Draw(rt, "putFaultAt")
+				} else {
+					dst.failAt = rapid.IntRange(0, len(info.reachable)).Draw(rt, "putFaultAt")
+				}
+			}
+
 			hardCap := []int{1, 2, 3, 5, 500, 500}[rapid.IntRange(0, 5).Draw(rt, "hardCap")]
 			useOldSyncer := rapid.IntRange(0, 2).Draw(rt, "oldSyncer") == 0
 			cacheCap := 1000
@@ -426,7 +462,7 @@ func TestVerifC05_Sync(t *testing.T) {
 			arg := ArgTrieSyncer{
 				Marshalizer:                    verifTBMarsh,
 				Hasher:                         h,
-				DB:                             dstDB,
+				DB:                             dst,
 				RequestHandler:                 req,
 				InterceptedNodes:               cacher,
 				ShardId:                        0,
@@ -462,8 +498,15 @@ func TestVerifC05_Sync(t *testing.T) {
 			var syncErr error
 			c.NoPanic("C05:sync-panic:"+version, func() { syncErr = syncer.StartSyncing(root, ctx) })
 			cancel()
-			desc := fmt.Sprintf("syncer=%s hardCap=%d hasher=%T nodes=%d prepopulated=%d rounds=%d trace=%s model=%s",
-				version, hardCap, h, len(info.reachable), prepopulated, round, trace.String(), model)
+			fault := "none"
+			if dst.failAt >= 0 {
+				fault = fmt.Sprintf("Put #%d not reached (%d Puts)", dst.failAt, dst.puts)
+				if dst.failedKey != nil {
+					fault = fmt.Sprintf("Put #%d (node %x, root=%v) failed once", dst.failAt, dst.failedKey, bytes.Equal(dst.failedKey, root))
+				}
+			}
+			desc := fmt.Sprintf("syncer=%s hardCap=%d hasher=%T nodes=%d prepopulated=%d rounds=%d storageFault=[%s] trace=%s model=%s",
+				version, hardCap, h, len(info.reachable), prepopulated, round, fault, trace.String(), model)
 			if foreignRequest != nil {
 				c.Violation("C05:requested-hash-outside-trie:"+version,
 					"the syncer requested hash %x which is not the hash of any node reachable from the requested root %x; %s", foreignRequest, root, desc)
@@ -472,8 +515,17 @@ func TestVerifC05_Sync(t *testing.T) {
 				if errors.Is(syncErr, ErrContextClosing) {
 					rt.Fatalf("fixture: sync did not finish within the safety timeout (%s)", desc)
 				}
-				c.Class("sync-returned-error")
+				if dst.failedKey != nil {
+					c.Class("sync-returned-error-after-put-fault:" + version)
+				} else {
+					c.Class("sync-returned-error")
+				}
 				return
+			}
+			if dst.failedKey != nil {
+				c.Class("sync-returned-nil-after-put-fault:" + version)
+			} else if dst.failAt >= 0 {
+				c.Class("put-fault-not-reached")
 			}
 			c.Class(fmt.Sprintf("rounds-log2=%d", verifC05Log2(round)))
 
